@@ -12,7 +12,9 @@ The code is the one after the repairs
   fix: unparseRemainingTokens of a tokenizer without token read tokens_[0] (size() - 1 underflow)
   fix: StringTokenizer / NestedStringTokenizer with an empty solid delimiter never terminated
   fix: StringTokenizer::getToken read tokens_[pos] without checking pos
-The code as found is kept (`…Old`) for the witness theorems.
+  fix: NestedStringTokenizer never recorded its separators … (`splits_` is filled; the stub
+       `unparseRemainingTokens() { return ""; }` that hid the base method is gone)
+The code as found is kept (`…Old`, `mkNestedNoSplits`) for the witness theorems.
 -/
 namespace Bpp.Text.U
 open Bpp.Text
@@ -161,46 +163,48 @@ structure Tokenizer.WF (t : Tokenizer) : Prop where
 def blocksUpd (blocks : Int) (token op en : Str) : R Int :=
   intRes (blocks + ((count token op : Nat) : Int) - ((count token en : Nat) : Int))
 
-/-- non-solid branch (NestedStringTokenizer.cpp:22-65); the two nested `while` loops are one
-recursion on (`index`, `newIndex`, `blocks`, `cache`) -/
-def nestNs (s op en d : Str) : Nat → Nat → Option Nat → Int → Str → R (List Str)
+/-- non-solid branch (NestedStringTokenizer.cpp:22-66); the two nested `while` loops are one
+recursion on (`index`, `newIndex`, `blocks`, `cache`); returns (`tokens_`, `splits_`) -/
+def nestNs (s op en d : Str) : Nat → Nat → Option Nat → Int → Str → R (List Str × List Str)
   | 0, _, _, _, _ => .error .hang
   | fuel + 1, index, some newIndex, blocks, cache => do
     let token ← substr s index (wsub newIndex index)               -- :31
     let blocks' ← blocksUpd blocks token op en
-    if blocks' == 0 then
-      match findFirstNotOf d s newIndex with                       -- :38
-      | none => pure [cache ++ token]
+    if blocks' == 0 then do
+      let index' := findFirstNotOf d s newIndex                    -- :38
+      let sp ← substr s newIndex (wsub (toSz index') newIndex)     -- :39 splits_.push_back (the repair)
+      match index' with
+      | none => pure ([cache ++ token], [sp])
       | some i => do
-        let rest ← nestNs s op en d fuel i (findFirstOf d s i) 0 []
-        pure ((cache ++ token) :: rest)
+        let (ts, ss) ← nestNs s op en d fuel i (findFirstOf d s i) 0 []
+        pure ((cache ++ token) :: ts, sp :: ss)
     else do
-      let piece ← substr s index (wadd (wsub newIndex index) 1)    -- :44
+      let piece ← substr s index (wadd (wsub newIndex index) 1)    -- :45
       let index' := wadd newIndex 1
       nestNs s op en d fuel index' (findFirstOf d s index') blocks' (cache ++ piece)
   | _ + 1, index, none, blocks, cache => do
-    let token ← substrFrom s index                                 -- :51
+    let token ← substrFrom s index                                 -- :52
     let blocks' ← blocksUpd blocks token op en
-    if blocks' == 0 then pure [cache ++ token] else .error .bpp   -- :61 "Unclosed block."
+    if blocks' == 0 then pure ([cache ++ token], []) else .error .bpp   -- :62 "Unclosed block."
 
-/-- solid branch (:69-112) -/
-def nestSolid (s op en d : Str) : Nat → Nat → Option Nat → Int → Str → R (List Str)
+/-- solid branch (:70-114) -/
+def nestSolid (s op en d : Str) : Nat → Nat → Option Nat → Int → Str → R (List Str × List Str)
   | 0, _, _, _, _ => .error .hang
   | fuel + 1, index, some newIndex, blocks, cache => do
-    let token ← substr s index (wsub newIndex index)               -- :78
+    let token ← substr s index (wsub newIndex index)               -- :79
     let blocks' ← blocksUpd blocks token op en
     if blocks' == 0 then do
-      let i := wadd newIndex d.length                              -- :85
-      let rest ← nestSolid s op en d fuel i (findFrom d s i) 0 []
-      pure ((cache ++ token) :: rest)
+      let i := wadd newIndex d.length                              -- :86
+      let (ts, ss) ← nestSolid s op en d fuel i (findFrom d s i) 0 []
+      pure ((cache ++ token) :: ts, d :: ss)                       -- :87 splits_.push_back(delimiters)
     else do
-      let piece ← substr s index (wadd (wsub newIndex index) 1)    -- :91
+      let piece ← substr s index (wadd (wsub newIndex index) 1)    -- :93
       let index' := wadd newIndex 1
       nestSolid s op en d fuel index' (findFrom d s index') blocks' (cache ++ piece)
   | _ + 1, index, none, blocks, cache => do
-    let token ← substrFrom s index                                 -- :98
+    let token ← substrFrom s index                                 -- :100
     let blocks' ← blocksUpd blocks token op en
-    if blocks' == 0 then pure [cache ++ token] else .error .bpp   -- :108
+    if blocks' == 0 then pure ([cache ++ token], []) else .error .bpp   -- :110
 
 /-- `NestedStringTokenizer(s, open, end, delimiters, solid)` -/
 def mkNestedG (fixed : Bool) (s op en d : Str) (solid : Bool) : R Tokenizer :=
@@ -208,15 +212,20 @@ def mkNestedG (fixed : Bool) (s op en d : Str) (solid : Bool) : R Tokenizer :=
     match findFirstNotOf d s 0 with
     | none => .ok ⟨[], [], 0⟩
     | some index => do
-      let ts ← nestNs s op en d (loopFuel s) index (findFirstOf d s index) 0 []
-      pure ⟨ts, [], 0⟩
+      let (ts, ss) ← nestNs s op en d (loopFuel s) index (findFirstOf d s index) 0 []
+      pure ⟨ts, ss, 0⟩
   else if fixed && d.isEmpty then .error .bpp                      -- the repair
   else do
-    let ts ← nestSolid s op en d (loopFuel s) 0 (findFrom d s 0) 0 []
-    pure ⟨ts, [], 0⟩
+    let (ts, ss) ← nestSolid s op en d (loopFuel s) 0 (findFrom d s 0) 0 []
+    pure ⟨ts, ss, 0⟩
 
 def mkNested := mkNestedG true
+/-- the code as found as far as the empty solid delimiter is concerned -/
 def mkNestedOld := mkNestedG false
+/-- the constructor before the repair `fix: NestedStringTokenizer never recorded its separators …`:
+the same tokens, `splits_` left empty -/
+def mkNestedNoSplits (s op en d : Str) (solid : Bool) : R Tokenizer :=
+  (mkNested s op en d solid).map (fun t => { t with splits := [] })
 
 /-! ## method scripts (the histories the property quantifies over) -/
 
@@ -230,8 +239,10 @@ inductive Ans where
   deriving Repr, DecidableEq
 
 /-- one call on the object; a `bpp` exception of `nextToken` leaves the object unchanged.
-`nested` = the object is a NestedStringTokenizer (its `unparseRemainingTokens` returns ""). -/
-def callStep (nested fixed : Bool) (t : Tokenizer) : Call → R (Ans × Tokenizer)
+`_nested` = the object is a NestedStringTokenizer: since the repair it has no method of its own
+that behaves differently (the stub `unparseRemainingTokens() { return ""; }` is gone; the base
+method was what ran through a `StringTokenizer&` all along). -/
+def callStep (_nested fixed : Bool) (t : Tokenizer) : Call → R (Ans × Tokenizer)
   | .next =>
     match t.nextToken with
     | .ok (tok, t') => .ok (.str tok, t')
@@ -242,11 +253,9 @@ def callStep (nested fixed : Bool) (t : Tokenizer) : Call → R (Ans × Tokenize
   | .rmEmpty => do
     let t' ← t.removeEmptyTokens
     pure (.unit, t')
-  | .unparse =>
-    if nested then .ok (.str [], t)
-    else do
-      let u ← if fixed then t.unparseRemainingTokens else t.unparseRemainingTokensOld
-      pure (.str u, t)
+  | .unparse => do
+    let u ← if fixed then t.unparseRemainingTokens else t.unparseRemainingTokensOld
+    pure (.str u, t)
   | .get k =>
     match (if fixed then t.getToken k else t.getTokenOld k) with
     | .ok tok => .ok (.str tok, t)
